@@ -370,6 +370,129 @@ def run_amplification(case, agg):
             agg.ok(h8(m), cls, sample={"input": desc, "bytes": len(m), "outcome": cls} if "depth 18 as an unknown" in desc else None)
 
 
+def large_cases(tier):
+    sizes = [16, 64] if tier == "quick" else [16, 64, 256]
+    return [{"kind": k, "kib": n} for k in ("bignum-at-every-integer", "long-strings", "wide-containers", "many-payloads", "stringref") for n in sizes]
+
+
+def run_large(case, agg):
+    """inputs of tens to hundreds of KiB: time must stay within max(5 s, 2 ms/byte), memory within 64 MiB + 256 x length."""
+    n = case["kib"] * 1024
+    b = seed_bytes("quick", "s1-everything")
+    root = deep(b)
+    inputs = []
+    if case["kind"] == "bignum-at-every-integer":
+        big = refcbor.head(6, 2) + enc(bytes([0x80]) + b"\x00" * (n - 1))           # 2(h'80 00..'): 1 << (8n-1)
+        big1 = refcbor.head(6, 2) + enc(b"\xff" * n)
+        for p in paths(root):
+            node = get(root, p)
+            if node[0] == "raw" and node[1] and (node[1][0] >> 5) in (0, 1):
+                inputs.append((f"integer at {p} -> bignum of {case['kib']} KiB (top bit)", encode(replaced(root, p, ["raw", big]))))
+                if len(inputs) % 7 == 0:
+                    inputs.append((f"integer at {p} -> bignum of {case['kib']} KiB (all ones)", encode(replaced(root, p, ["raw", big1]))))
+    elif case["kind"] == "long-strings":
+        for p in paths(root):
+            node = get(root, p)
+            if node[0] == "raw" and node[1] and (node[1][0] >> 5) == 3:
+                inputs.append((f"text at {p} -> {case['kib']} KiB", encode(replaced(root, p, ["raw", enc("t" * n)]))))
+            elif node[0] == "bstr" and node[2] is None:
+                inputs.append((f"bytes at {p} -> {case['kib']} KiB", encode(replaced(root, p, ["bstr", b"\x00" * n, None]))))
+    elif case["kind"] == "wide-containers":
+        for p in paths(root):
+            node = get(root, p)
+            if node[0] == "array" and len(inputs) < 40:
+                inputs.append((f"array at {p} -> {n} small integers", encode(replaced(root, p, ["raw", refcbor.head(4, n) + b"\x01" * n]))))
+                inputs.append((f"array at {p} -> {n // 2} empty arrays", encode(replaced(root, p, ["raw", refcbor.head(4, n // 2) + b"\x80" * (n // 2)]))))
+            elif node[0] == "map" and len(inputs) < 40:
+                body = b"".join(enc(1000 + i) + b"\x00" for i in range(n // 4))
+                inputs.append((f"map at {p} -> {n // 4} unknown integer keys", encode(replaced(root, p, ["raw", refcbor.head(5, n // 4) + body]))))
+    elif case["kind"] == "many-payloads":
+        env, raw = impl.envelope_members(b)
+        k = n // 8
+        body = enc(2) + raw[2] + enc(3) + raw[3] + b"".join(enc(f"#{i:05d}") + b"\x40" for i in range(k))
+        inputs.append((f"{k} integrated payloads", b"\xd8\x6b" + refcbor.head(5, 2 + k) + body))
+    elif case["kind"] == "stringref":
+        # tag 256 (stringref namespace) around an envelope whose payloads are tag-25 references to one long byte string
+        env, raw = impl.envelope_members(b)
+        big = enc(b"\x5a" * (n * 3 // 4))
+        k = 2000
+        body = enc(2) + raw[2] + enc(3) + raw[3] + enc("#first") + big + b"".join(enc(f"#r{i:04d}") + refcbor.head(6, 25) + enc(3) for i in range(k))
+        inputs.append((f"stringref: {k} references to one {n * 3 // 4 >> 10} KiB byte string",
+                       refcbor.head(6, 256) + b"\xd8\x6b" + refcbor.head(5, 3 + k) + body))
+        inputs.append((f"stringref inside the envelope tag: {k} references",
+                       b"\xd8\x6b" + refcbor.head(6, 256) + refcbor.head(5, 3 + k) + body))
+    ok = 0
+    for i, (desc, m) in enumerate(inputs):
+        if case.get("only") is not None and case["only"] != i:
+            continue
+        cls, fp, text = parse_outcome(m)
+        if fp:
+            agg.viol(f"{fp}/{case['kind']}", f"{desc} ({len(m)} bytes): {text}", case={**case, "only": i})
+            return
+        ok += 1
+        agg.outcomes[cls] += 1
+        agg.keys.add(h8(m))
+    agg.evaluations += ok
+    if inputs:
+        agg.samples.append({"family": case["kind"], "KiB": case["kib"], "inputs": len(inputs), "first": inputs[0][0]})
+
+
+def scaling_cases(tier):
+    return [{"kind": k} for k in ("many-payloads", "many-unknown-members", "many-commands", "many-components", "many-text-entries", "bignum-policy", "long-uri")]
+
+
+def _scaled_input(kind, n):
+    b = seed_bytes("quick", "s1-everything")
+    env, raw = impl.envelope_members(b)
+    man = refcbor.to_py(refcbor.decode(env.get(3).value))
+    if kind == "many-payloads":
+        body = enc(2) + raw[2] + enc(3) + raw[3] + b"".join(enc(f"#{i:06d}") + b"\x41\x00" for i in range(n))
+        return b"\xd8\x6b" + refcbor.head(5, 2 + n) + body
+    if kind == "many-unknown-members":
+        body = enc(2) + raw[2] + enc(3) + raw[3] + b"".join(enc(1000 + i) + b"\x00" for i in range(n))
+        return b"\xd8\x6b" + refcbor.head(5, 2 + n) + body
+    if kind == "many-commands":
+        man[7] = refcbor.head(4, 2 * n) + enc(14) * 0 + b"".join(b"\x0e\x00" for _ in range(n))
+        man[7] = enc(man[7])
+    elif kind == "many-components":
+        com = refcbor.to_py(refcbor.decode(man[3]))
+        com[2] = Raw(refcbor.head(4, n) + enc([b"a"]) * n)
+        man[3] = enc(com)
+    elif kind == "bignum-policy":
+        man[7] = enc(Raw(refcbor.head(4, 2) + enc(14) + refcbor.head(6, 2) + enc(bytes([0x80]) + b"\x00" * (8 * n - 1))))
+    elif kind == "long-uri":
+        man[4] = "u" * (8 * n)
+    elif kind == "many-text-entries":
+        tm = refcbor.head(5, 1) + enc("en") + refcbor.head(5, n) + b"".join(enc([enc(i)]) + b"\xa0" for i in range(n))
+        return enc(Tag(107, {2: env.get(2).value, 3: env.get(3).value, 23: tm}))
+    return enc(Tag(107, {2: env.get(2).value, 3: enc(man)}))
+
+
+def run_scaling(case, agg):
+    """time proportional to the input size: quadrupling the input must not multiply the CPU time by more than 10."""
+    kind = case["kind"]
+    n = 4096
+    times = []
+    for size in (n, 4 * n):
+        m = _scaled_input(kind, size)
+        best = None
+        for _ in range(2):
+            t0 = time.process_time()
+            cls, fp, text = parse_outcome(m)
+            dt = time.process_time() - t0
+            best = dt if best is None else min(best, dt)
+            if fp:
+                agg.viol(f"{fp}/{kind}", f"{kind} x {size} ({len(m)} bytes): {text}")
+                return
+        times.append((size, len(m), best, cls))
+    (n1, l1, t1, c1), (n4, l4, t4, c4) = times
+    if t4 > 1.0 and t4 > 10 * max(t1, 0.02):
+        agg.viol(f"C17:superlinear-time/{kind}", f"{kind}: {n1} items ({l1} bytes) parse in {t1:.2f} s CPU, {n4} items ({l4} bytes) in {t4:.2f} s - "
+                 f"x{t4 / max(t1, 1e-9):.1f} for x{l4 / l1:.1f} input")
+    else:
+        agg.ok(h8("c17scale", kind), f"ok:scaling:{c4}", sample={"family": kind, "items": [n1, n4], "bytes": [l1, l4], "cpu_s": [round(t1, 3), round(t4, 3)]})
+
+
 def tiny_cases(tier):
     out = [{"lo": 0, "hi": 256, "n": 1}]
     if tier == "thorough":
@@ -450,5 +573,7 @@ def plan(tier):
         CaseStage("single-faults", lambda: fault_cases(tier), run_faults, chunk=1, rule="six fault classes at every node/byte/head of every seed"),
         CaseStage("nesting", [{}], run_nesting, serial=True, rule="depth families 10..10^4 of six nesting constructs"),
         CaseStage("value-sharing", [{}], run_amplification, serial=True, rule="CBOR tags 28/29: expansion depth 8..18 and self reference at five positions"),
+        CaseStage("large-values", lambda: large_cases(tier), run_large, chunk=1, rule="16/64 (thorough: 256) KiB bignums at every integer, long strings, wide containers, many payloads, stringref"),
+        CaseStage("scaling", lambda: scaling_cases(tier), run_scaling, chunk=1, rule="7 families at n and 4n items: CPU time ratio must stay below 10"),
         CaseStage("tiny-inputs", lambda: tiny_cases(tier), run_tiny, chunk=1, rule="every 1-byte (thorough: every 2-byte) input"),
     ]
